@@ -229,6 +229,21 @@ func c08Prefix(c *Ctx) {
 		return
 	}
 	prefix := c.constVal("tmpChunkPrefix")
+	// the writing side names its temp files with the prefix prune looks for
+	if sc := c.mustFn("LocalStore.StoreChunk"); sc != nil {
+		n := 0
+		for _, mk := range callsAll(sc, func(name string) bool {
+			return strings.HasSuffix(name, "tempfile.NewMode") || strings.HasSuffix(name, "tempfile.New") || name == "os.CreateTemp" || name == "io/ioutil.TempFile"
+		}) {
+			n++
+			a := mk.Common().Args
+			c.verdict(len(a) >= 2 && onlyOrigins(a[1], func(o string) bool { return o == "const:"+prefix }), "LocalStore.StoreChunk:tmp-prefix", mk.Pos(), "temp chunk files carry the prefix prune removes",
+				"StoreChunk names its temp file with something else than tmpChunkPrefix: a temp file left by an interrupted write is not recognised by prune and stays in the store for ever")
+		}
+		if n == 0 {
+			c.bad("LocalStore.StoreChunk:tmp-prefix", sc.Pos(), "StoreChunk creates no temp file")
+		}
+	}
 	found := false
 	for _, cl := range withClosures(fn) {
 		for _, hp := range calls(cl, named("strings.HasPrefix")) {
